@@ -167,18 +167,21 @@ Definition meta_wf (m : gmeta T) : Prop :=
   no_nl (g_name m) = true /\ no_nl (g_comment m) = true.
 
 Definition main_lines (bo : border) (m : gmeta T) : list string :=
-  [kv 14 "NROWS" (show_Z (g_nrows m)); kv 14 "NCOLS" (show_Z (g_ncols m));
-   kv 14 "XLLCORNER" (io_pr IO (g_xll m)); kv 14 "YLLCORNER" (io_pr IO (g_yll m));
-   kv 14 "CELLSIZE" (io_pr IO (g_csz m));
-   kv 14 "NBITS" (show_Z (snd (g_dtype m) * 8));
-   kv 14 "PIXELTYPE" (upper (pixeltype_text (g_dtype m)));
-   kv 14 "BYTEORDER" (border_letter bo);
-   kv 14 "NODATA_VALUE" (show_nd IO (g_nodata m));
-   kv 14 "NAME" (g_name m);
-   kv 14 "COMMENT" (if String.eqb (g_comment m) "" then "No comment" else g_comment m)].
+  let w := SAVE_WIDTH in
+  [kv w "NROWS" (show_Z (g_nrows m)); kv w "NCOLS" (show_Z (g_ncols m));
+   kv w "XLLCORNER" (io_pr IO (g_xll m)); kv w "YLLCORNER" (io_pr IO (g_yll m));
+   kv w "CELLSIZE" (io_pr IO (g_csz m));
+   kv w "NBITS" (show_Z (snd (g_dtype m) * 8));
+   kv w "PIXELTYPE" (upper (pixeltype_text (g_dtype m)));
+   kv w "BYTEORDER" (border_letter bo);
+   kv w "NODATA_VALUE" (show_nd IO (g_nodata m));
+   kv w "NAME" (g_name m);
+   kv w "COMMENT" (if String.eqb (g_comment m) "" then SAVE_EMPTY_COMMENT else g_comment m)].
 
+(* the field widths and the text replacing an empty comment stay symbolic: a
+   change of these constants in the source keeps the proofs *)
 Lemma header_lines_eq bo m :
-  header_lines IO bo m = main_lines bo m ++ plines 22 (g_parent m) SAVE_PARENT_ATTRS.
+  header_lines IO bo m = main_lines bo m ++ plines SAVE_PARENT_WIDTH (g_parent m) SAVE_PARENT_ATTRS.
 Proof. reflexivity. Qed.
 
 Lemma in_i64_true z : - 2 ^ 63 <= z < 2 ^ 63 -> in_i64 z = true.
@@ -203,7 +206,7 @@ Definition final_cfg (bo : border) (m : gmeta T) : cfgT :=
    ("nodata", CInt STREAM_DEF_NODATA); ("nbits", CInt (snd (g_dtype m) * 8));
    ("pixeltype", CText (textval (upper (pixeltype_text (g_dtype m)))));
    ("byteorder", CText (textval (border_letter bo)));
-   ("comment", CText (textval (if String.eqb (g_comment m) "" then "No comment" else g_comment m)));
+   ("comment", CText (textval (if String.eqb (g_comment m) "" then SAVE_EMPTY_COMMENT else g_comment m)));
    ("name", CText (textval (g_name m)));
    ("nrows", CInt (g_nrows m)); ("ncols", CInt (g_ncols m));
    ("nodata_value", cval_of_nd (g_nodata m))].
@@ -211,36 +214,36 @@ Definition final_cfg (bo : border) (m : gmeta T) : cfgT :=
 Lemma parse_main_lines defname bo m :
   pl (Some (stream_defaults N defname, [])) (main_lines bo m) = Some (final_cfg bo m, []).
 Proof.
-  unfold main_lines.
-  rewrite pl_cons, (parse_line_int 14 "NROWS" "nrows") by (reflexivity || discriminate).
+  unfold main_lines. cbv zeta.
+  rewrite pl_cons, (parse_line_int SAVE_WIDTH "NROWS" "nrows") by (reflexivity || discriminate).
   rewrite apply_lres_noparent by reflexivity. cbn [fst snd].
-  rewrite pl_cons, (parse_line_int 14 "NCOLS" "ncols") by (reflexivity || discriminate).
+  rewrite pl_cons, (parse_line_int SAVE_WIDTH "NCOLS" "ncols") by (reflexivity || discriminate).
   rewrite apply_lres_noparent by reflexivity. cbn [fst snd].
-  rewrite pl_cons, (parse_line_flt 14 "XLLCORNER" "xllcorner") by (reflexivity || discriminate).
+  rewrite pl_cons, (parse_line_flt SAVE_WIDTH "XLLCORNER" "xllcorner") by (reflexivity || discriminate).
   rewrite apply_lres_noparent by reflexivity. cbn [fst snd].
-  rewrite pl_cons, (parse_line_flt 14 "YLLCORNER" "yllcorner") by (reflexivity || discriminate).
+  rewrite pl_cons, (parse_line_flt SAVE_WIDTH "YLLCORNER" "yllcorner") by (reflexivity || discriminate).
   rewrite apply_lres_noparent by reflexivity. cbn [fst snd].
-  rewrite pl_cons, (parse_line_flt 14 "CELLSIZE" "cellsize") by (reflexivity || discriminate).
+  rewrite pl_cons, (parse_line_flt SAVE_WIDTH "CELLSIZE" "cellsize") by (reflexivity || discriminate).
   rewrite apply_lres_noparent by reflexivity. cbn [fst snd].
-  rewrite pl_cons, (parse_line_int 14 "NBITS" "nbits") by (reflexivity || discriminate).
+  rewrite pl_cons, (parse_line_int SAVE_WIDTH "NBITS" "nbits") by (reflexivity || discriminate).
   rewrite apply_lres_noparent by reflexivity. cbn [fst snd].
-  rewrite pl_cons, (parse_line_text 14 "PIXELTYPE" "pixeltype") by (reflexivity || discriminate).
+  rewrite pl_cons, (parse_line_text SAVE_WIDTH "PIXELTYPE" "pixeltype") by (reflexivity || discriminate).
   rewrite apply_lres_noparent by reflexivity. cbn [fst snd].
-  rewrite pl_cons, (parse_line_text 14 "BYTEORDER" "byteorder") by (reflexivity || discriminate).
+  rewrite pl_cons, (parse_line_text SAVE_WIDTH "BYTEORDER" "byteorder") by (reflexivity || discriminate).
   rewrite apply_lres_noparent by reflexivity. cbn [fst snd].
-  rewrite pl_cons, (parse_line_nodata 14 "NODATA_VALUE" "nodata_value") by (reflexivity || discriminate).
+  rewrite pl_cons, (parse_line_nodata SAVE_WIDTH "NODATA_VALUE" "nodata_value") by (reflexivity || discriminate).
   rewrite apply_lres_noparent by reflexivity. cbn [fst snd].
-  rewrite pl_cons, (parse_line_text 14 "NAME" "name") by (reflexivity || discriminate).
+  rewrite pl_cons, (parse_line_text SAVE_WIDTH "NAME" "name") by (reflexivity || discriminate).
   rewrite apply_lres_noparent by reflexivity. cbn [fst snd].
-  rewrite pl_cons, (parse_line_text 14 "COMMENT" "comment") by (reflexivity || discriminate).
+  rewrite pl_cons, (parse_line_text SAVE_WIDTH "COMMENT" "comment") by (reflexivity || discriminate).
   rewrite apply_lres_noparent by reflexivity. reflexivity.
 Qed.
 
 Lemma main_lines_wf bo m :
   no_nl (g_name m) = true -> no_nl (g_comment m) = true -> Forall line_wf (main_lines bo m).
 Proof.
-  intros Hn Hc. unfold main_lines.
-  assert (K : forall k v, no_nl k = true -> no_nl v = true -> line_wf (kv 14 k v))
+  intros Hn Hc. unfold main_lines. cbv zeta.
+  assert (K : forall k v, no_nl k = true -> no_nl v = true -> line_wf (kv SAVE_WIDTH k v))
     by (intros; apply kv_line_wf; assumption).
   repeat constructor; apply K; try reflexivity.
   all: first [ apply show_Z_no_nl | apply no_ws_no_nl, pr_tok | apply no_ws_no_nl, show_nd_no_ws
@@ -248,6 +251,7 @@ Proof.
              | (destruct (g_dtype m) as [[] b]; reflexivity)
              | (destruct bo; reflexivity)
              | (destruct (String.eqb (g_comment m) ""); [reflexivity|assumption]) ].
+  (* SAVE_EMPTY_COMMENT has no newline: checked by computation on the extracted text *)
 Qed.
 
 Lemma textval_pixeltype d : textval (upper (pixeltype_text d)) = lower (upper (pixeltype_text d)).
@@ -266,21 +270,21 @@ Lemma finish_final bo m p' :
   finish_stream N IO (final_cfg bo m, p') =
   Some (mkG (textval (g_name m)) (g_ncols m) (g_nrows m) (g_csz m) (g_xll m) (g_yll m)
             (g_dtype m) (g_nodata m)
-            (textval (if String.eqb (g_comment m) "" then "No comment" else g_comment m))
+            (textval (if String.eqb (g_comment m) "" then SAVE_EMPTY_COMMENT else g_comment m))
             (parent_of_cfg p'), bo).
 Proof.
   intros (Hr & Hc & Hd & Hn & _ & _).
   assert (G : mk_grid N IO (textval (g_name m)) (g_ncols m) (Some (g_nrows m)) (g_csz m) (g_xll m)
                 (g_yll m) (g_dtype m) (g_nodata m)
-                (textval (if String.eqb (g_comment m) "" then "No comment" else g_comment m)) =
+                (textval (if String.eqb (g_comment m) "" then SAVE_EMPTY_COMMENT else g_comment m)) =
               Some (mkG (textval (g_name m)) (g_ncols m) (g_nrows m) (g_csz m) (g_xll m) (g_yll m)
                         (g_dtype m) (g_nodata m)
-                        (textval (if String.eqb (g_comment m) "" then "No comment" else g_comment m)) []))
+                        (textval (if String.eqb (g_comment m) "" then SAVE_EMPTY_COMMENT else g_comment m)) []))
     by (apply mk_grid_ok; [lia | lia | assumption]).
   unfold final_cfg, finish_stream.
   destruct m as [name nc nr csz xll yll d nd comment par]. cbn [g_name g_ncols g_nrows g_csz g_xll g_yll
     g_dtype g_nodata g_comment g_parent] in *.
-  set (tc := textval (if String.eqb comment "" then "No comment" else comment)) in *.
+  set (tc := textval (if String.eqb comment "" then SAVE_EMPTY_COMMENT else comment)) in *.
   set (tn := textval name) in *.
   rewrite textval_pixeltype.
   pose proof (dtype_sweep d bo Hd) as S.
@@ -318,7 +322,7 @@ Proof.
   destruct (full_parse defname bo m) as [p' Hp].
   exists (mkG (textval (g_name m)) (g_ncols m) (g_nrows m) (g_csz m) (g_xll m) (g_yll m)
               (g_dtype m) (g_nodata m)
-              (textval (if String.eqb (g_comment m) "" then "No comment" else g_comment m))
+              (textval (if String.eqb (g_comment m) "" then SAVE_EMPTY_COMMENT else g_comment m))
               (parent_of_cfg p')).
   split; [|cbn; repeat split; reflexivity].
   unfold from_stream_header, from_stream_gen, header_text.
